@@ -924,3 +924,40 @@ UNITS["v_block_types"] = dict(
         safety_id="C01.block_type_info.safety",
     )],
 )
+
+# ------------------------------------------------------------------------------------------------
+ARITH = "src/compiler/value/arithmetic.rs"
+ARITH_IMPL = "impl VrlValueArithmetic for Value"
+UNITS["v_str_arith"] = dict(
+    prop=["C11"], tier="q", prelude=["strarith.rs"], native_witness={"C11": ["string_arith"]},
+    fns=[
+        dict(id="try_mul", file=ARITH, impl=ARITH_IMPL, name="try_mul",
+             orig_sig="fn try_mul(self, rhs: Self) -> Result<Self, ValueError>",
+             sig="pub fn try_mul(this: Value, rhs: Value) -> (r: Result<Value, ValueError>)",
+             rewrites=[RW_SELF,
+                       dict(**{"from": "let as_usize = |num| if num < 0 { 0 } else { num as usize };", "to": "let as_usize = |num: i64| -> (o: usize) ensures o == (if num < 0 { 0 } else { num as usize }) { if num < 0 { 0 } else { num as usize } };", "count": 1, "why": "closure parameter/return types made explicit, with its own body as its contract"}),
+                       dict(**{"from": "float_result(lhs as f64 * rhs.into_inner())?", "to": "float_mul_if(lhs, rhs)?", "count": 1, "why": "float arm opaque (decided bit-precisely by the C11 Kani units)"}),
+                       dict(**{"from": "float_result(lhs.into_inner() * rhs as f64)?", "to": "float_mul_fi(lhs, rhs)?", "count": 1, "why": "float arm opaque"}),
+                       dict(**{"from": "float_result(lhs.into_inner() * rhs.into_inner())?", "to": "float_mul_ff(lhs, rhs)?", "count": 1, "why": "float arm opaque"}),
+                       dict(**{"from": "i64::wrapping_mul(lhs, rhs).into()", "to": "wrapping_mul_value(lhs, rhs)", "count": 1, "why": "integer arm opaque (C11 Kani)"}),
+                       dict(**{"from": r"(Bytes::from\([^\n]*\))\.into\(\)", "to": r"\1.into_value()", "regex": True, "count": 2, "why": "From<Bytes> for Value"})],
+             ensures=[("C11.bytes.mul_repeat", "`string * n` and `n * string` repeat the string max(n, 0) times (every string, every i64)",
+                       "(match (this, rhs) { (Value::Bytes(s), Value::Integer(n)) => r is Ok && r->Ok_0 is Bytes && r->Ok_0->Bytes_0.b@ == spec_repeat(s.b@, (if n < 0 { 0 } else { n as nat })), (Value::Integer(n), Value::Bytes(s)) => r is Ok && r->Ok_0 is Bytes && r->Ok_0->Bytes_0.b@ == spec_repeat(s.b@, (if n < 0 { 0 } else { n as nat })), _ => true })")],
+             safety_id="C11.try_mul.safety"),
+        dict(id="try_add", file=ARITH, impl=ARITH_IMPL, name="try_add",
+             orig_sig="fn try_add(self, rhs: Self) -> Result<Self, ValueError>",
+             sig="pub fn try_add(this: Value, rhs: Value) -> (r: Result<Value, ValueError>)",
+             requires=["(this is Bytes && rhs is Bytes) ==> this->Bytes_0.b@.len() + rhs->Bytes_0.b@.len() <= usize::MAX"],
+             rewrites=[RW_SELF,
+                       dict(**{"from": "float_result(lhs as f64 + rhs.into_inner())?", "to": "float_add_if(lhs, rhs)?", "count": 1, "why": "float arm opaque (C11 Kani)"}),
+                       dict(**{"from": "float_result(lhs.into_inner() + rhs as f64)?", "to": "float_add_fi(lhs, rhs)?", "count": 1, "why": "float arm opaque"}),
+                       dict(**{"from": "float_result(lhs.into_inner() + rhs.into_inner())?", "to": "float_add_ff(lhs, rhs)?", "count": 1, "why": "float arm opaque"}),
+                       dict(**{"from": "i64::wrapping_add(lhs, rhs).into()", "to": "wrapping_add_value(lhs, rhs)", "count": 1, "why": "integer arm opaque (C11 Kani)"}),
+                       dict(**{"from": "value.freeze().into()", "to": "value.freeze().into_value()", "count": 1, "why": "From<Bytes> for Value"})],
+             ensures=[("C11.bytes.add_concat", "string + string concatenates; null acts as the empty string on either side of a string (every pair of strings)",
+                       "(match (this, rhs) { (Value::Bytes(a), Value::Bytes(b)) => r is Ok && r->Ok_0 is Bytes && r->Ok_0->Bytes_0.b@ == a.b@ + b.b@, (Value::Bytes(a), Value::Null) => r == Ok::<Value, ValueError>(Value::Bytes(a)), (Value::Null, Value::Bytes(b)) => r == Ok::<Value, ValueError>(Value::Bytes(b)), _ => true })"),
+                      ("C11.bytes.add_type_error", "adding a string to a number, or null to anything but a string, is a type error, never a wrong value",
+                       "(match (this, rhs) { (Value::Bytes(_), Value::Integer(_)) | (Value::Bytes(_), Value::Float(_)) | (Value::Integer(_), Value::Bytes(_)) | (Value::Float(_), Value::Bytes(_)) | (Value::Null, Value::Null) | (Value::Null, Value::Integer(_)) | (Value::Integer(_), Value::Null) => r is Err && r->Err_0 is Add, _ => true })")],
+             safety_id="C11.try_add.safety", safety_text="the capacity hint `lhs.len() + rhs.len()` cannot overflow under the stated precondition (the two strings fit in memory together)"),
+    ],
+)
